@@ -37,6 +37,24 @@ func TestSynctestCheck(t *testing.T) {
 		})
 		fmt.Printf("SYNCTEST case=never-falsified outcome=returned runs=%d failed=%v\n", runs, t.Failed())
 	})
+	t.Run("long-fake-sleeps", func(t *testing.T) {
+		// every test case sleeps 400 fake days (a certificate that expires): no real time passes, no real deadline is near
+		runs := 0
+		synctest.Test(t, func(t *testing.T) {
+			defer func() {
+				if r := recover(); r != nil {
+					fmt.Printf("SYNCTEST case=long-fake-sleeps outcome=panic runs=%d value=%q\n", runs, fmt.Sprint(r))
+					t.FailNow()
+				}
+			}()
+			rapid.Check(t, func(rt *rapid.T) {
+				runs++
+				rapid.Bool().Draw(rt, "b")
+				time.Sleep(400 * 24 * time.Hour)
+			})
+		})
+		fmt.Printf("SYNCTEST case=long-fake-sleeps outcome=returned runs=%d failed=%v\n", runs, t.Failed())
+	})
 	t.Run("make-check", func(t *testing.T) {
 		runs := 0
 		defer func() {
